@@ -34,6 +34,9 @@ def seeded_md():
             continue
         prop = m.get("property", name.split("-")[0])
         r = res.get((name, prop), ("not run", ""))
+        others = [f"{k[1]}: {v[0]}" for k, v in res.items() if k[0] == name and k[1] != prop]
+        if others:
+            r = (r[0] + " (" + ", ".join(others) + ")", r[1])
         w = str(m.get("what_it_breaks", "")).replace("|", "\\|").replace("\n", " ")
         n = str(m.get("needs_to_manifest", "")).replace("|", "\\|").replace("\n", " ")
         if len(w) > 220: w = w[:217] + "..."
